@@ -128,8 +128,18 @@ func (p *plan) generate(yield func(kase)) {
 	for vi := range p.variants {
 		v := &p.variants[vi]
 
-		if only != "" && !strings.Contains(v.route, only) {
-			continue
+		if only != "" {
+			hit := false
+
+			for _, o := range strings.Split(only, "|") {
+				if strings.Contains(v.route, o) {
+					hit = true
+				}
+			}
+
+			if !hit {
+				continue
+			}
 		}
 
 		for ii, id := range p.idents {
